@@ -119,6 +119,26 @@ def heap_changes(before, st):
     return out
 
 
+WRITERS = [
+    "hexital.core.indicator.Indicator.calculate", "hexital.core.indicator.Indicator.calculate_index",
+    "hexital.core.indicator.Indicator.recalculate", "hexital.core.indicator.Indicator.purge", "hexital.core.indicator.Indicator.append",
+    "hexital.core.indicator.Indicator._set_reading", "hexital.core.indicator.Indicator._set_active_index",
+    "hexital.core.candle_manager.CandleManager.append", "hexital.core.candle_manager.CandleManager.purge",
+    "hexital.core.candle_manager.CandleManager._tasks", "hexital.core.hexital.Hexital.calculate", "hexital.core.hexital.Hexital.calculate_index",
+    "hexital.core.hexital.Hexital.recalculate", "hexital.core.hexital.Hexital.purge", "hexital.core.hexital.Hexital.append",
+    "hexital.core.hexital.Hexital.add_indicator", "hexital.core.hexital.Hexital.remove_indicator",
+]
+
+
+def _writer_stub(q):
+    def stub(ex, st, args, kwargs, node):
+        def gen():
+            ex.ctx.oblige(st, "frame-write", f"modifies-nothing: a read-only function calls {q.split('hexital.core.')[-1]}", z3.BoolVal(False), node)
+            yield st, None
+        return gen()
+    return stub
+
+
 def run_task(source, contracts, loops, qualname, natives=None, timeout_ms=10000, force_inline=(), props=None,
              builder=None, extra_contract=None):
     """builder(ex, st) -> iterable of (st, args, kwargs, env_for_spec) overrides the default
@@ -247,6 +267,13 @@ def run_task(source, contracts, loops, qualname, natives=None, timeout_ms=10000,
                 ctx.extract = function_extractor(contract, env)
                 ctx.extract_len = next((p + ".len" for p, ty in contract.types.items() if ty == "series"), "c.len")
             before = heap_snapshot(st)
+            if contract is not None and contract.pure:
+                # a read-only function must not reach one of the library's writers at all (their own contracts declare what
+                # they modify: candle readings, candle lists, the indicator's bookkeeping); active only while the function under
+                # contract runs, not while the task's objects are being built
+                for w in WRITERS:
+                    if w != qualname and w not in ctx.natives:
+                        ctx.natives[w] = _writer_stub(w)
             for st1, value in ex.inline(fv, list(args), dict(kwargs), st, fnode):
                 res.paths += 1
                 if contract is None:
